@@ -251,7 +251,11 @@ func simOnceFunc(f func()) func() {
 	g := func() {
 		defer func() {
 			p = recover()
-			if !valid {
+			if !valid && p != nil {
+				// (p == nil: f did not panic - since Go 1.21 recover never
+				// returns nil for a panic - but ended with runtime.Goexit,
+				// which is how the simulator ends a task; the original would
+				// turn that into panic(nil).)
 				panic(p)
 			}
 		}()
